@@ -441,6 +441,12 @@ func readerFor(t types.Type) (string, *types.Named) {
 			}
 		}
 	}
+	if sl, isSl := t.(*types.Slice); isSl {
+		if eb, isB := sl.Elem().(*types.Basic); isB && eb.Kind() == types.Uint8 {
+			// proto3 JSON: bytes are base64 text
+			return "(*encoding/base64.Encoding).DecodeString", nil
+		}
+	}
 	b, ok := t.Underlying().(*types.Basic)
 	if !ok {
 		return "", nil
@@ -480,6 +486,9 @@ func readerOf(v ssa.Value) (string, string) {
 			continue
 		case *ssa.ChangeType:
 			v = x.X
+			continue
+		case *ssa.Extract:
+			v = x.Tuple
 			continue
 		}
 		break
